@@ -391,4 +391,78 @@ theorem tie_add_objects_dynamic (E : Env) (s : St) (o : Id) (hk : E.kind o ≠ K
   · obtain ⟨h1, h2, h3⟩ : o ∉ s.statics ∧ o ∉ s.dynamics ∧ o ∉ E.lanelets := by simpa [not_or] using hu
     simp only [markUsed, h1, h2, h3, or_self, if_false, hk, bind, Except.bind, putDynamic, tie_add_dynamic_obstacle_to_lanelets E _ o hk]
 
+/-! ### assign_obstacles_to_lanelets -/
+
+@[simp] theorem setFwd_setFwd (s : St) (o : Id) (f g : Fwd) : (s.setFwd o f).setFwd o g = s.setFwd o g := by
+  unfold St.setFwd
+  congr 1
+  funext x
+  by_cases h : x = o <;> simp [h]
+
+@[simp] theorem setFwd_fwd_self (s : St) (o : Id) (f : Fwd) : (s.setFwd o f).fwd o = f := by simp [St.setFwd]
+
+/-- nested `assign_static_obstacle(obstacle)` is the model's `assignStatic` -/
+theorem tie_assign_static_obstacle (E : Env) (co : Bool) (s : St) (o : Id) :
+    Gen.Scenario_assign_obstacles_to_lanelets.assign_static_obstacle E co s o = assignStatic E co o s := by
+  unfold Gen.Scenario_assign_obstacles_to_lanelets.assign_static_obstacle assignStatic
+  cases co
+  · simp only [staticOccAt, derefAt, setInitShape, setInitCenter, Bool.not_false, if_true, Bool.false_eq_true, if_false,
+      bind, Except.bind, pure, Except.pure, setFwd_setFwd, setFwd_fwd_self]
+    rw [foldlM_regStatic E o _ (by
+      intro s l
+      by_cases h : l ∈ E.lanelets <;> simp [findLanelet, deref, tie_lanelet_add_static, h, bind, Except.bind, pure, Except.pure])]
+    cases h : regStatic E o (E.shp o (E.t0 o)) s.sreg <;> simp [h, map_ok, map_err, Except.map]
+  · simp only [staticOccAt, derefAt, setInitShape, setInitCenter, Bool.not_true, if_true, Bool.false_eq_true, if_false,
+      bind, Except.bind, pure, Except.pure, setFwd_setFwd, setFwd_fwd_self]
+    rw [foldlM_regStatic E o _ (by
+      intro s l
+      by_cases h : l ∈ E.lanelets <;> simp [findLanelet, deref, tie_lanelet_add_static, h, bind, Except.bind, pure, Except.pure])]
+    cases h : regStatic E o (E.cen o (E.t0 o)) s.sreg <;> simp [h, map_ok, map_err, Except.map]
+
+/-- the loop `for l_id in lanelet_ids: find_lanelet_by_id(l_id).add_dynamic_obstacle_to_lanelet(o, t)` -/
+theorem foldlM_addDyn (E : Env) (o : Id) (t : T) (ids : List Id) (s : St) :
+    List.foldlM (fun s l_id => do
+        let s ← Gen.Lanelet_add_dynamic_obstacle_to_lanelet s (← deref (findLanelet E l_id)) o t
+        pure s) s ids = (regDyn E o t ids s.dreg).map (fun r => { s with dreg := r }) :=
+  foldlM_regDyn E o t _ (by reg_tac E, o, t) ids s
+
+theorem int_aux1 (t a : Int) (h : t < a) : ¬(a + 1 ≤ t) := by omega
+theorem int_aux2 (t a : Int) (h1 : ¬t = a) (h2 : ¬t < a) : a + 1 ≤ t ∧ a < t := by omega
+
+/-- closes a goal `foldlM (registration step) s' ids = match regDyn … with …` -/
+macro "fin_dyn " E:term ", " o:term ", " t:term : tactic => `(tactic|
+  (rw [foldlM_regDyn $E $o $t _ (by reg_tac $E, $o, $t)]
+   simp only [setFwd_dreg, setFwd_setFwd, setFwd_fwd_self]
+   generalize regDyn $E $o _ _ _ = x
+   cases x <;> simp [Except.map, St.setFwd]))
+
+/-- nested `assign_dynamic_obstacle_shape_at_time(obstacle, time_step)` is the model's `assignDynAt` -/
+theorem tie_assign_dynamic_obstacle_shape_at_time (E : Env) (co : Bool) (s : St) (o : Id) (t : T) :
+    Gen.Scenario_assign_obstacles_to_lanelets.assign_dynamic_obstacle_shape_at_time E co s o t = assignDynAt E co o s t := by
+  unfold Gen.Scenario_assign_obstacles_to_lanelets.assign_dynamic_obstacle_shape_at_time assignDynAt assignFwd
+  by_cases ht : t = E.t0 o
+  · subst ht
+    cases hkind : E.kind o <;> cases co <;> cases hpc : (s.fwd o).predCenter <;> cases hps : (s.fwd o).predShape <;>
+      simp [hkind, hpc, hps, predIsNone, predCenterSetItem, predShapeSetItem, dynOccAt, derefAt, setInitShape, setInitCenter,
+        bind, Except.bind, pure, Except.pure] <;>
+      fin_dyn E, o, (E.t0 o)
+  · by_cases hr : E.kind o ≠ Kind.dynTraj ∨ E.tf o < t
+    · rcases hr with hr | hr <;> simp [ht, hr, pure, Except.pure]
+    · have hk : E.kind o = Kind.dynTraj := by
+        by_cases h : E.kind o = Kind.dynTraj
+        · exact h
+        · exact absurd (Or.inl h) hr
+      have htf : t ≤ E.tf o := by
+        by_cases h : E.tf o < t
+        · exact absurd (Or.inr h) hr
+        · exact Int.not_lt.mp h
+      by_cases hlt : t < E.t0 o
+      · have : ¬(E.t0 o + 1 ≤ t) := int_aux1 t (E.t0 o) hlt
+        simp [ht, hk, htf, hlt, this, trajStateAt, derefAt, bind, Except.bind, Int.not_lt.mpr htf]
+      · obtain ⟨h1, h2⟩ : E.t0 o + 1 ≤ t ∧ E.t0 o < t := int_aux2 t (E.t0 o) ht hlt
+        cases co <;> cases hpc : (s.fwd o).predCenter <;> cases hps : (s.fwd o).predShape <;>
+          simp [ht, hk, htf, hlt, h1, h2, hpc, hps, trajStateAt, predIsNone, predCenterSetItem, predShapeSetItem, dynOccAt, derefAt,
+            setInitShape, setInitCenter, bind, Except.bind, pure, Except.pure, Int.not_lt.mpr htf] <;>
+          fin_dyn E, o, t
+
 end CR.Assign
